@@ -397,6 +397,21 @@ class CFG:
         return out
 
 
+def branch_conditions(parents: dict, func_node: ast.AST, node: ast.AST) -> tuple[list[ast.expr], list[ast.expr]]:
+    """(conditions known true, conditions known false) at `node`, read off the enclosing if/else arms."""
+    pos, neg = [], []
+    cur = node
+    while cur is not None and cur is not func_node:
+        p = parents.get(cur)
+        if isinstance(p, ast.If):
+            if any(cur is x for x in p.body):
+                pos.extend(p.test.values if isinstance(p.test, ast.BoolOp) and isinstance(p.test.op, ast.And) else [p.test])
+            elif any(cur is x for x in p.orelse):
+                neg.extend(p.test.values if isinstance(p.test, ast.BoolOp) and isinstance(p.test.op, ast.Or) else [p.test])
+        cur = p
+    return pos, neg
+
+
 def _is_noreturn_call(s: ast.stmt) -> bool:
     if isinstance(s, ast.Expr) and isinstance(s.value, ast.Call):
         f = s.value.func
